@@ -466,12 +466,23 @@ def canon_dict(d):
     return sorted(((repr(v), sorted((repr(a), repr(sorted(b)) if isinstance(b, list) else repr(b)) for a, b in row)) for v, row in d))
 
 
-def bounded(run, sec=30):
+_TIMEOUTS = {}
+
+
+def bounded(run, sec=20):
     """a `run` function whose every evaluation is bounded in time: an implementation that stops terminating on a
     generated input (a leaked cache, a shared table growing across automata) is reported as a failing input of that
-    clause instead of stalling the whole check"""
+    clause instead of stalling the whole check; after three such inputs the remaining ones of the clause are not run"""
+    name = getattr(run, "__name__", "run")
+
     def wrapped(inp):
-        with time_limit(sec):
-            return run(inp)
-    wrapped.__name__ = getattr(run, "__name__", "run")
+        if _TIMEOUTS.get(name, 0) >= 3:
+            raise CallTimeout("not run: three earlier inputs of this clause did not return within %s s" % sec)
+        try:
+            with time_limit(sec):
+                return run(inp)
+        except CallTimeout:
+            _TIMEOUTS[name] = _TIMEOUTS.get(name, 0) + 1
+            raise
+    wrapped.__name__ = name
     return wrapped
